@@ -6,7 +6,7 @@ the code before the `fix:` commit).  Specification: one append-only log (`Spec`)
 -/
 import Verif.Lemmas.RingConc
 namespace Verif.Props.C20
-open Verif.Ring Verif.Mutex
+open Verif.Ring Verif.RingMutex
 
 variable {ε : Type}
 
